@@ -85,18 +85,18 @@ pub fn i1_frame<const M: usize, const A_FRESH: bool>() {
             }
             _ => {
                 ManuallyDrop::drop(&mut a);
-                assert!(NDEALLOC == if A_FRESH { 0 } else { 1 }, "[C03] drop freed the wrong number of chunks");
+                vassert!(NDEALLOC == if A_FRESH { 0 } else { 1 }, "NEVER: [C03] drop freed the wrong number of chunks");
             }
         }
         let after = observe::<M>(&b, probe);
-        assert!(before == after, "[C20] an operation on one arena changed an observable of another arena");
-        assert!(empty_is_pristine(), "[C20] shared static sentinel modified");
+        vassert!(before == after, "NEVER: [C20] an operation on one arena changed an observable of another arena");
+        vassert!(empty_is_pristine(), "NEVER: [C20] shared static sentinel modified");
         kani::cover!(op == 3, "REACH: reset of A");
         kani::cover!(op == 4, "REACH: drop of A");
         kani::cover!(b_fresh, "REACH: bystander is chunk-less (shares the sentinel)");
         kani::cover!(!b_fresh, "REACH: bystander holds a chunk");
         // last (a failure here ends the path): no store at all into the shared static
-        assert!(SENTINEL_STORES == 0, "[C20] [monitor] store into the shared static sentinel (data race between threads owning distinct chunk-less arenas)");
+        vassert!(SENTINEL_STORES == 0, "NEVER: [C20] [monitor] store into the shared static sentinel (data race between threads owning distinct chunk-less arenas)");
     }
 }
 
@@ -117,3 +117,67 @@ i1!(i1_frame_chunk_m8, 8, false);
 i1!(i1_frame_chunk_m16, 16, false);
 i1!(i1_frame_fresh_m1, 1, true);
 i1!(i1_frame_fresh_m16, 16, true);
+
+/// Decision twin: the chunks arena B asks the global allocator for do not depend on what
+/// another arena A experienced before (e.g. refusals): B's request log after A's failed
+/// allocation equals B's log alone.  Stand-alone footers (F4 style), A-null.
+pub fn i1_decide_twin<const M: usize>() {
+    use core::alloc::Layout;
+    use core::ptr::NonNull;
+    unsafe {
+        let usable_b: usize = 8128;
+        let mut dummy = [0u8; 16];
+        let d = NonNull::new_unchecked(dummy.as_mut_ptr());
+        let mk = |usable: usize| ChunkFooter {
+            data: d,
+            layout: Layout::from_size_align_unchecked(usable + FOOTER_SIZE, 16),
+            prev: Cell::new(empty_footer()),
+            ptr: Cell::new(d),
+            allocated_bytes: usable,
+        };
+        let fb1 = mk(usable_b);
+        let fb2 = mk(usable_b);
+        let limit_b: Option<usize> = kani::any();
+        let req_b: usize = kani::any();
+        kani::assume(req_b >= 1 && req_b <= 4096);
+        let lb = Layout::from_size_align(req_b, 8).unwrap();
+        // run 1: B alone
+        NLOG = 0;
+        let b1 = ManuallyDrop::new(Bump::<M> { current_chunk_footer: Cell::new(NonNull::from(&fb1)), allocation_limit: Cell::new(limit_b) });
+        let r1 = b1.alloc_layout_slow(lb);
+        let n1 = NLOG;
+        let log1 = LOG;
+        // run 2: A (chunk-less, any small request) is refused first, then B
+        NLOG = 0;
+        let a = ManuallyDrop::new(Bump::<M> { current_chunk_footer: Cell::new(empty_footer()), allocation_limit: Cell::new(None) });
+        let req_a: usize = kani::any();
+        kani::assume(req_a >= 1 && req_a <= 2048);
+        let ra = a.alloc_layout_slow(Layout::from_size_align(req_a, 1).unwrap());
+        vassert!(ra.is_none(), "NEVER: [C09] success although the global allocator refused everything");
+        NLOG = 0;
+        let b2 = ManuallyDrop::new(Bump::<M> { current_chunk_footer: Cell::new(NonNull::from(&fb2)), allocation_limit: Cell::new(limit_b) });
+        let r2 = b2.alloc_layout_slow(lb);
+        vassert!(r1.is_none() && r2.is_none(), "NEVER: [C09] success although the global allocator refused everything");
+        vassert!(NLOG == n1, "NEVER: [C20] the number of chunks an arena asks for depends on another arena's history");
+        let i: usize = kani::any();
+        if i < n1 && i < LOGN {
+            vassert!(LOG[i].0 == log1[i].0 && LOG[i].1 == log1[i].1, "NEVER: [C20] the chunk sizes an arena asks for depend on another arena's history");
+        }
+        kani::cover!(n1 >= 2, "REACH: several attempts");
+        kani::cover!(limit_b.is_some() && n1 >= 1, "REACH: under a limit");
+    }
+}
+#[kani::proof]
+#[kani::unwind(12)]
+#[kani::stub(crate::core_alloc::alloc::alloc, alloc_null)]
+#[kani::stub(crate::core_alloc::alloc::dealloc, dealloc_count)]
+pub fn i1_decide_twin_m1() {
+    i1_decide_twin::<1>();
+}
+#[kani::proof]
+#[kani::unwind(12)]
+#[kani::stub(crate::core_alloc::alloc::alloc, alloc_null)]
+#[kani::stub(crate::core_alloc::alloc::dealloc, dealloc_count)]
+pub fn i1_decide_twin_m16() {
+    i1_decide_twin::<16>();
+}
